@@ -53,6 +53,19 @@ pub fn check_wire(bytes: &[u8], batch: &[Event]) -> Result<Vec<Event>, String> {
   Ok(decoded)
 }
 
+/// What a consumer of the virtual keyboard sees in a byte string: every whole record that is a key
+/// press or release of a known key, in order (everything else is skipped).
+pub fn decode_leniently(bytes: &[u8]) -> Vec<Event> {
+  use num_traits::FromPrimitive;
+  let mut v = vec![];
+  for rec in bytes.chunks(REC) {
+    if rec.len() < REC { break; }
+    let (t, c, val) = decode_record(rec);
+    if t == EV_KEY && (val == 0 || val == 1) { if let Some(k) = <KeyCode as FromPrimitive>::from_u16(c) { v.push(if val == 1 { Pressed(k) } else { Released(k) }); } }
+  }
+  v
+}
+
 fn drain(fd: RawFd) -> Vec<u8> {
   let mut all = vec![];
   let mut buf = vec![0u8; 8192];
@@ -63,7 +76,7 @@ fn drain(fd: RawFd) -> Vec<u8> {
 }
 
 #[derive(Default, Clone, Debug)]
-pub struct WireStats { pub foreign: u64, pub foreign_syn: u64, pub foreign_msc: u64, pub foreign_autorepeat: u64, pub foreign_unknown_code: u64, pub foreign_other_type: u64, pub foreign_big_code: u64, pub eagain_mid_skip: u64, pub batches: u64, pub records_written: u64 }
+pub struct WireStats { pub foreign: u64, pub foreign_syn_other: u64, pub foreign_syn: u64, pub foreign_msc: u64, pub foreign_autorepeat: u64, pub foreign_unknown_code: u64, pub foreign_other_type: u64, pub foreign_big_code: u64, pub eagain_mid_skip: u64, pub batches: u64, pub records_written: u64 }
 
 pub struct Pipes { pub kbd_r: RawFd, pub kbd_w: RawFd, pub tab_r: RawFd, pub tab_w: RawFd, pub out_r: RawFd, pub out_w: RawFd }
 impl Pipes {
@@ -81,7 +94,8 @@ pub fn foreign_record(sel: u64, arg: u64, stats: &mut WireStats, tablet: bool) -
   stats.foreign += 1;
   let known = [30u16, 42, 29, 57, 1, 183];
   if tablet {
-    return match sel % 6 {
+    return match sel % 7 {
+      6 => { stats.foreign_syn_other += 1; kernel_record(1, 2, EV_SYN, 3, 0) }
       0 => { stats.foreign_syn += 1; kernel_record(1, 2, EV_SYN, 0, 0) }
       1 => { stats.foreign_other_type += 1; kernel_record(1, 2, EV_SW, 0, (arg % 2) as i32) }       // SW_LID
       2 => { stats.foreign_other_type += 1; kernel_record(1, 2, EV_SW, 1, 2 + (arg % 3) as i32) }   // SW_TABLET_MODE with an odd value
@@ -90,7 +104,9 @@ pub fn foreign_record(sel: u64, arg: u64, stats: &mut WireStats, tablet: bool) -
       _ => { stats.foreign_other_type += 1; kernel_record(1, 2, EV_SW, 5, 1) }
     };
   }
-  match sel % 8 {
+  match sel % 10 {
+    8 => { stats.foreign_syn_other += 1; kernel_record(1623709383, 272708, EV_SYN, 3, 0) }                      // SYN_DROPPED
+    9 => { stats.foreign_syn_other += 1; kernel_record(1623709383, 272708, EV_SYN, 1 + (arg % 2) as u16, (arg / 2 % 2) as i32) } // SYN_CONFIG / SYN_MT_REPORT
     0 => { stats.foreign_syn += 1; kernel_record(1623709383, 272708, EV_SYN, 0, 0) }
     1 => { stats.foreign_msc += 1; kernel_record(1623709383, 272708, EV_MSC, 4, (arg & 0xff) as i32) }
     2 => { stats.foreign_autorepeat += 1; kernel_record(1623709383, 272708, EV_KEY, known[(arg % 6) as usize], 2) }
@@ -109,28 +125,28 @@ fn key_record(e: &Event) -> Vec<u8> {
 /// Byte layer for hybrid world-B runs.
 /// Hybrid byte layer: the shipped RealDriver (hook H3) on pipes — its errno mapping, the real
 /// readers and writer underneath, mio registration and zero-timeout poll.
-pub struct PipeLayer { pub p: Pipes, drv: VerifRealDriver, pub stats: WireStats }
+pub struct PipeLayer { pub p: Pipes, drv: VerifRealDriver, pub stats: WireStats, last_actual: Option<Vec<Event>> }
 impl PipeLayer {
   pub fn new() -> PipeLayer {
     let p = Pipes::new();
     let drv = VerifRealDriver::from_fds(p.kbd_r, p.out_w, Some(p.tab_r));
-    PipeLayer { p, drv, stats: WireStats::default() }
+    PipeLayer { p, drv, stats: WireStats::default(), last_actual: None }
   }
 }
 impl ByteLayer for PipeLayer {
   fn push_kbd(&mut self, e: &Event, tape: &mut Tape) {
     let mut buf = vec![];
-    let nb = tape.below(3); for _ in 0..nb { let s = tape.below(8); let a = tape.below(1 << 16); buf.extend(foreign_record(s, a, &mut self.stats, false)); }
+    let nb = tape.below(3); for _ in 0..nb { let s = tape.below(10); let a = tape.below(1 << 16); buf.extend(foreign_record(s, a, &mut self.stats, false)); }
     buf.extend(key_record(e));
-    let na = tape.below(3); for _ in 0..na { let s = tape.below(8); let a = tape.below(1 << 16); buf.extend(foreign_record(s, a, &mut self.stats, false)); }
+    let na = tape.below(3); for _ in 0..na { let s = tape.below(10); let a = tape.below(1 << 16); buf.extend(foreign_record(s, a, &mut self.stats, false)); }
     self.stats.records_written += 1 + nb + na;
     let _ = write(self.p.kbd_w, &buf);
   }
   fn push_tab(&mut self, on: bool, tape: &mut Tape) {
     let mut buf = vec![];
-    let nb = tape.below(2); for _ in 0..nb { let s = tape.below(6); let a = tape.below(1 << 16); buf.extend(foreign_record(s, a, &mut self.stats, true)); }
+    let nb = tape.below(2); for _ in 0..nb { let s = tape.below(7); let a = tape.below(1 << 16); buf.extend(foreign_record(s, a, &mut self.stats, true)); }
     buf.extend(kernel_record(5, 5, EV_SW, 1, on as i32));
-    let na = tape.below(2); for _ in 0..na { let s = tape.below(6); let a = tape.below(1 << 16); buf.extend(foreign_record(s, a, &mut self.stats, true)); }
+    let na = tape.below(2); for _ in 0..na { let s = tape.below(7); let a = tape.below(1 << 16); buf.extend(foreign_record(s, a, &mut self.stats, true)); }
     let _ = write(self.p.tab_w, &buf);
   }
   fn read_kbd(&mut self) -> Result<Option<Event>, String> {
@@ -145,8 +161,13 @@ impl ByteLayer for PipeLayer {
     self.drv.send(evs).map_err(|e| format!("real writer failed on a pipe: {}", e))?;
     self.stats.batches += 1;
     let bytes = drain(self.p.out_r);
-    check_wire(&bytes, evs)
+    match check_wire(&bytes, evs) {
+      Ok(d) => Ok(d),
+      // malformed: report it, and hand back what a consumer would actually see in these bytes
+      Err(e) => { self.last_actual = Some(decode_leniently(&bytes)); Err(e) }
+    }
   }
+  fn take_actual(&mut self) -> Option<Vec<Event>> { self.last_actual.take() }
   fn sabotage_writer(&mut self, kind: u8) {
     match kind % 3 {
       0 => { // queue full: the next write gets EAGAIN
@@ -271,11 +292,20 @@ pub fn execute_c(case: &CaseC, stats: &mut WireStats, digest: &mut u64) -> Optio
   None
 }
 
-pub struct WireCampaign { pub exhaustive_codes: bool, pub quick_runs: u64, pub thorough_runs: u64, pub keys: Vec<KeyCode> }
+pub struct WireCampaign { pub exhaustive_codes: bool, pub length_sweep: bool, pub quick_runs: u64, pub thorough_runs: u64, pub keys: Vec<KeyCode> }
+pub const MAX_SWEPT_LEN: u64 = 700;
 impl WireCampaign {
-  pub fn new(exhaustive_codes: bool, quick_runs: u64, thorough_runs: u64) -> WireCampaign { WireCampaign { exhaustive_codes, quick_runs, thorough_runs, keys: all_known_keys() } }
+  pub fn new(exhaustive_codes: bool, quick_runs: u64, thorough_runs: u64) -> WireCampaign { WireCampaign { exhaustive_codes, length_sweep: false, quick_runs, thorough_runs, keys: all_known_keys() } }
+  pub fn lengths() -> WireCampaign { WireCampaign { exhaustive_codes: false, length_sweep: true, quick_runs: 0, thorough_runs: 0, keys: all_known_keys() } }
   pub fn generate(&self, seed: u64, idx: u64, thorough: bool) -> CaseC {
     let mut rng = Rng::new(seed);
+    if self.length_sweep {
+      // run idx writes a batch of exactly idx events (framing must not depend on the length)
+      let len = (idx % (MAX_SWEPT_LEN + 1)) as usize;
+      let mut batch = vec![];
+      for _ in 0..len { let k = rng.pick(&self.keys); batch.push(if rng.chance(1, 2) { Pressed(k) } else { Released(k) }); }
+      return CaseC { batch, bursts: vec![], loopback: true };
+    }
     if self.exhaustive_codes {
       // run idx covers key idx: press and release alone and inside a batch
       let k = self.keys[(idx as usize) % self.keys.len()];
@@ -293,7 +323,7 @@ impl WireCampaign {
       let n = rng.below(10);
       let mut b = vec![];
       for _ in 0..n {
-        if (rng.below(100) as u64) < p_foreign { b.push(Rec::Foreign(rng.below(8) as u64, rng.below(1 << 16) as u64)); }
+        if (rng.below(100) as u64) < p_foreign { b.push(Rec::Foreign(rng.below(10) as u64, rng.below(1 << 16) as u64)); }
         else { let k = rng.pick(&self.keys); b.push(Rec::Key(if rng.chance(1, 2) { Pressed(k) } else { Released(k) })); }
       }
       bursts.push(b);
@@ -328,18 +358,18 @@ pub fn minimise_c(case: &CaseC, label: &str) -> (CaseC, Violation, u64) {
 }
 
 impl Campaign for WireCampaign {
-  fn name(&self) -> String { if self.exhaustive_codes { "wiresim-all-codes".into() } else { "wiresim-random".into() } }
+  fn name(&self) -> String { if self.exhaustive_codes { "wiresim-all-codes".into() } else if self.length_sweep { "wiresim-all-lengths".into() } else { "wiresim-random".into() } }
   fn world(&self) -> &'static str { "C" }
-  fn runs(&self, thorough: bool) -> u64 { if self.exhaustive_codes { 3 * self.keys.len() as u64 } else if thorough { self.thorough_runs } else { self.quick_runs } }
+  fn runs(&self, thorough: bool) -> u64 { if self.exhaustive_codes { 3 * self.keys.len() as u64 } else if self.length_sweep { MAX_SWEPT_LEN + 1 } else if thorough { self.thorough_runs } else { self.quick_runs } }
   fn declare(&self, acc: &mut Acc) {
-    for f in ["foreign_syn_report", "foreign_msc_scan", "foreign_autorepeat_value2", "foreign_unknown_key_code", "foreign_code_above_enum", "foreign_other_type_or_value", "eagain_while_skipping_foreign_records"] { acc.declare_fault(f); }
+    for f in ["foreign_syn_dropped_config_mt", "foreign_syn_report", "foreign_msc_scan", "foreign_autorepeat_value2", "foreign_unknown_key_code", "foreign_code_above_enum", "foreign_other_type_or_value", "eagain_while_skipping_foreign_records"] { acc.declare_fault(f); }
   }
   fn run(&self, seed: u64, idx: u64, ctx: &mut Ctx) -> RunResult {
     let case = self.generate(seed, idx, ctx.thorough);
     let mut stats = WireStats::default(); let mut digest = 0u64;
     let res = run_c(&case, &mut stats, &mut digest);
     let acc = &mut *ctx.acc;
-    acc.fault("foreign_syn_report", stats.foreign_syn); acc.fault("foreign_msc_scan", stats.foreign_msc); acc.fault("foreign_autorepeat_value2", stats.foreign_autorepeat);
+    acc.fault("foreign_syn_report", stats.foreign_syn); acc.fault("foreign_syn_dropped_config_mt", stats.foreign_syn_other); acc.fault("foreign_msc_scan", stats.foreign_msc); acc.fault("foreign_autorepeat_value2", stats.foreign_autorepeat);
     acc.fault("foreign_unknown_key_code", stats.foreign_unknown_code); acc.fault("foreign_code_above_enum", stats.foreign_big_code); acc.fault("foreign_other_type_or_value", stats.foreign_other_type);
     acc.fault("eagain_while_skipping_foreign_records", stats.eagain_mid_skip);
     acc.count("batches_written", stats.batches); acc.count("records_fed_to_reader", stats.records_written); acc.count("steps", 1 + case.bursts.len() as u64);
@@ -358,6 +388,7 @@ impl Campaign for WireCampaign {
     match run_c(&c, &mut s, &mut d) { Ok(v) => Ok(v), Err(p) => Ok(Some(Violation::new("C18-panic", 0, format!("panic in the byte layer: {}", p)))) }
   }
   fn rule(&self) -> String {
+    if self.length_sweep { return format!("every batch length 0..={} once, random keys: written by the real writer, checked record by record against libc::input_event (exactly one SYN_REPORT at the end), decoded again by the real reader; non-trivial = length >= 2", MAX_SWEPT_LEN); }
     if self.exhaustive_codes { format!("exhaustive: every key code the tool knows ({} codes) x {{press alone, release alone, inside a 4-event batch}}: written by the real writer, checked against libc::input_event, decoded again by the real reader, and read from a stream with foreign records around it; non-trivial = always", self.keys.len()) }
     else { "random batch (length 0-64 quick, 0-200 thorough) over all known key codes written by the real DevInputWriter into a pipe and checked record by record against libc::input_event; the same bytes fed to the real DevInputReader; then 0-6 (12 thorough) bursts of up to 9 records mixing key presses/releases with foreign records (SYN, MSC scan, value-2 auto-repeat, unknown codes, codes above the enum, LED/REL, odd values), reader called until EAGAIN after every burst; distinct by hash of (batch, bursts); non-trivial = batch of >=2 events or a burst with >=1 foreign record".into() }
   }
